@@ -127,17 +127,45 @@ fn ids_in(dir: &Path) -> Vec<Value> {
 
 /// Open an image with the real code, read everything, then keep using it: one put and one
 /// reopen.  Reports what was recovered and which files the continued use created.
+fn file_bytes(dir: &Path) -> BTreeMap<String, Vec<u8>> {
+    let mut m = BTreeMap::new();
+    if let Ok(rd) = fs::read_dir(dir) {
+        for e in rd.flatten() {
+            m.insert(e.file_name().to_string_lossy().to_string(), fs::read(e.path()).unwrap_or_default());
+        }
+    }
+    m
+}
+
 fn probe_image(dir: &Path, cfg: &SpecCfg, names: &Names, cont_key: &str, cont_val: &str) -> Value {
     let before = ids_in(dir);
+    let bytes_before = file_bytes(dir);
+    // what recovery itself does to the directory is recorded as well
+    shim::start(dir, false);
+    shim::set_skip_fsync(true);
     let conf = cfg.real(dir, Knobs { concurrency: 1, cache: 4 });
     let r = std::panic::catch_unwind(std::panic::AssertUnwindSafe(move || conf.open()));
     let kv = match r {
         Ok(Ok(kv)) => kv,
-        Ok(Err(e)) => return json!({"opened": false, "err": format!("{e}"), "before": before}),
-        Err(_) => return json!({"opened": false, "err": "panic", "before": before}),
+        Ok(Err(e)) => {
+            shim::stop();
+            return json!({"opened": false, "err": format!("{e}"), "before": before});
+        }
+        Err(_) => {
+            shim::stop();
+            return json!({"opened": false, "err": "panic", "before": before});
+        }
     };
     let h = kv.get_handle();
     let map = read_all(&h, names);
+    let recovery_calls: Vec<Value> = shim::stop().iter().filter(|c| c.mutating()).map(sys_event).collect();
+    // every file that existed before the open must be byte-identical after it
+    let bytes_after = file_bytes(dir);
+    let modified: Vec<String> = bytes_before
+        .iter()
+        .filter(|(n, b)| bytes_after.get(*n) != Some(*b))
+        .map(|(n, _)| n.clone())
+        .collect();
     let after_open = ids_in(dir);
     // continued use: a put, read back, reopen, read back
     let (k, v) = (names.key(cont_key), names.val(cont_val));
@@ -161,6 +189,7 @@ fn probe_image(dir: &Path, cfg: &SpecCfg, names: &Names, cont_key: &str, cont_va
         };
     let after_all = ids_in(dir);
     json!({"opened": true, "map": map, "before": before, "after_open": after_open,
+           "recovery_calls": recovery_calls, "modified_by_recovery": modified,
            "cont": {"k": cont_key, "v": cont_val, "put": put, "gets": gets_after_put,
                     "reopened": reopened, "gets2": gets_after_reopen, "after": after_all}})
 }
